@@ -5,6 +5,11 @@ package semver
 func init() {
 	vRegister("C04Valid", VerifC04Valid)
 	vRegister("C04ValidTwin", VerifC04ValidTwin)
+	vRegister("C04Parts", VerifC04Parts)
+	vRegister("C04Compare", VerifC04Compare)
+	vRegister("C04Order", VerifC04Order)
+	vRegister("C04Long", VerifC04Long)
+	vRegister("C04Sort", VerifC04Sort)
 }
 
 const vNumRE = `(0|[1-9][0-9]*)`
@@ -24,10 +29,298 @@ func VerifC04Valid() {
 	vAssert("valid==grammar", ok == vMatch(vSemverRE, v))
 }
 
+// Reachability witness for the harnesses of this file.
 func VerifC04ValidTwin() {
 	n := vChoice("len", vParam("maxlen", 6)+1)
 	v := vString("v", n)
 	ok := IsValid(v)
 	vAssume(ok)
 	vAssert("twin", false)
+}
+
+// vRefParts splits a grammar-valid version using only separator positions.
+func vRefParts(v string) (major, minor, patch, pre, build string, fields int) {
+	rest := v[1:]
+	for i := 0; i < len(rest); i++ {
+		if rest[i] == '+' {
+			build = rest[i:]
+			rest = rest[:i]
+			break
+		}
+	}
+	for i := 0; i < len(rest); i++ {
+		if rest[i] == '-' {
+			pre = rest[i:]
+			rest = rest[:i]
+			break
+		}
+	}
+	var f [3]string
+	k := 0
+	start := 0
+	for i := 0; i <= len(rest); i++ {
+		if i == len(rest) || rest[i] == '.' {
+			if k < 3 {
+				f[k] = rest[start:i]
+			}
+			k++
+			start = i + 1
+		}
+	}
+	major, minor, patch = f[0], "0", "0"
+	if k > 1 {
+		minor = f[1]
+	}
+	if k > 2 {
+		patch = f[2]
+	}
+	return major, minor, patch, pre, build, k
+}
+
+// VerifC04Parts: every accessor returns the corresponding part, "" for invalid strings.
+func VerifC04Parts() {
+	n := vChoice("len", vParam("maxlen", 6)+1)
+	v := vString("v", n)
+	if !vMatch(vSemverRE, v) {
+		vReach("invalid")
+		vAssert("invalid:Major", Major(v) == "")
+		vAssert("invalid:MajorMinor", MajorMinor(v) == "")
+		vAssert("invalid:Canonical", Canonical(v) == "")
+		vAssert("invalid:Prerelease", Prerelease(v) == "")
+		vAssert("invalid:Build", Build(v) == "")
+		return
+	}
+	vReach("valid")
+	major, minor, patch, pre, build, _ := vRefParts(v)
+	vAssert("Major", Major(v) == "v"+major)
+	vAssert("MajorMinor", MajorMinor(v) == "v"+major+"."+minor)
+	canon := "v" + major + "." + minor + "." + patch + pre
+	vAssert("Canonical", Canonical(v) == canon)
+	vAssert("Prerelease", Prerelease(v) == pre)
+	vAssert("Build", Build(v) == build)
+	vAssert("Canonical-idempotent", Canonical(canon) == canon)
+	vAssert("Canonical-valid", IsValid(canon))
+}
+
+func vIsNum(s string) bool {
+	if s == "" {
+		return false
+	}
+	for i := 0; i < len(s); i++ {
+		if s[i] < '0' || s[i] > '9' {
+			return false
+		}
+	}
+	return true
+}
+
+// vNumVal: value of a short decimal string (callers keep it under 19 digits).
+func vNumVal(s string) uint64 {
+	var x uint64
+	for i := 0; i < len(s); i++ {
+		x = x*10 + uint64(s[i]-'0')
+	}
+	return x
+}
+
+func vCmpU(a, b uint64) int {
+	if a < b {
+		return -1
+	}
+	if a > b {
+		return 1
+	}
+	return 0
+}
+
+// vRefComparePre applies SemVer 2.0.0 §11.4 literally.
+func vRefComparePre(x, y string) int {
+	if x == y {
+		return 0
+	}
+	if x == "" {
+		return 1
+	}
+	if y == "" {
+		return -1
+	}
+	x, y = x[1:], y[1:]
+	for {
+		// cut next identifiers
+		i := 0
+		for i < len(x) && x[i] != '.' {
+			i++
+		}
+		j := 0
+		for j < len(y) && y[j] != '.' {
+			j++
+		}
+		dx, dy := x[:i], y[:j]
+		if dx != dy {
+			nx, ny := vIsNum(dx), vIsNum(dy)
+			if nx && ny {
+				return vCmpU(vNumVal(dx), vNumVal(dy))
+			}
+			if nx {
+				return -1
+			}
+			if ny {
+				return 1
+			}
+			if dx < dy {
+				return -1
+			}
+			return 1
+		}
+		xEnd, yEnd := i == len(x), j == len(y)
+		if xEnd && yEnd {
+			return 0
+		}
+		if xEnd {
+			return -1
+		}
+		if yEnd {
+			return 1
+		}
+		x, y = x[i+1:], y[j+1:]
+	}
+}
+
+func vRefCompare(v, w string) int {
+	okv, okw := vMatch(vSemverRE, v), vMatch(vSemverRE, w)
+	if !okv {
+		if !okw {
+			return 0
+		}
+		return -1
+	}
+	if !okw {
+		return 1
+	}
+	a1, a2, a3, ap, _, _ := vRefParts(v)
+	b1, b2, b3, bp, _, _ := vRefParts(w)
+	if c := vCmpU(vNumVal(a1), vNumVal(b1)); c != 0 {
+		return c
+	}
+	if c := vCmpU(vNumVal(a2), vNumVal(b2)); c != 0 {
+		return c
+	}
+	if c := vCmpU(vNumVal(a3), vNumVal(b3)); c != 0 {
+		return c
+	}
+	return vRefComparePre(ap, bp)
+}
+
+// VerifC04Compare: Compare equals SemVer precedence with numeric fields compared by value.
+func VerifC04Compare() {
+	max := vParam("maxlen", 4)
+	n := vChoice("lenv", max+1)
+	m := vChoice("lenw", max+1)
+	v := vString("v", n)
+	w := vString("w", m)
+	got := Compare(v, w)
+	want := vRefCompare(v, w)
+	if want == 0 {
+		vReach("equal")
+	} else {
+		vReach("ordered")
+	}
+	vAssert("Compare==reference", got == want)
+}
+
+// VerifC04Order: Compare is a total preorder and 0 exactly on equal canonical forms.
+func VerifC04Order() {
+	max := vParam("maxlen", 3)
+	u := vString("u", vChoice("lenu", max+1))
+	v := vString("v", vChoice("lenv", max+1))
+	w := vString("w", vChoice("lenw", max+1))
+	uv, vw, uw, vu := Compare(u, v), Compare(v, w), Compare(u, w), Compare(v, u)
+	vAssert("reflexive", Compare(u, u) == 0)
+	vAssert("antisymmetric", uv == -vu)
+	if uv <= 0 && vw <= 0 {
+		vReach("chain")
+		vAssert("transitive", uw <= 0)
+		if uv < 0 || vw < 0 {
+			vAssert("transitive-strict", uw < 0)
+		}
+	}
+	vAssert("zero-iff-canonical", (uv == 0) == (Canonical(u) == Canonical(v)))
+}
+
+func vAllDigits(s string) bool {
+	ok := true
+	for i := 0; i < len(s); i++ {
+		ok = vAnd(ok, vAnd(s[i] >= '0', s[i] <= '9'))
+	}
+	return ok
+}
+
+// VerifC04Long: numeric fields far beyond 64 bits are compared numerically.
+func VerifC04Long() {
+	lo := vParam("minDigits", 20)
+	span := vParam("span", 3)
+	nx := lo + vChoice("nx", span)
+	ny := lo + vChoice("ny", span)
+	x := vString("x", nx)
+	y := vString("y", ny)
+	vAssume(vAnd(vAllDigits(x), vAllDigits(y)))
+	vAssume(vAnd(x[0] != '0', y[0] != '0'))
+	// numeric order of two decimal strings without leading zeros
+	want := 0
+	if len(x) < len(y) {
+		want = -1
+	} else if len(x) > len(y) {
+		want = 1
+	} else if x < y {
+		want = -1
+	} else if x > y {
+		want = 1
+	}
+	where := vChoice("where", 4)
+	var v, w string
+	switch where {
+	case 0:
+		v, w = "v"+x, "v"+y
+	case 1:
+		v, w = "v1."+x, "v1."+y
+	case 2:
+		v, w = "v1.2."+x, "v1.2."+y
+	case 3:
+		v, w = "v1.2.3-a."+x, "v1.2.3-a."+y
+	}
+	vReach("long")
+	vAssert("long-valid", vAnd(IsValid(v), IsValid(w)))
+	vAssert("long-compare", Compare(v, w) == want)
+	vAssert("long-antisymmetric", Compare(w, v) == -want)
+}
+
+// VerifC04Sort: Sort yields a permutation ordered by Compare, then by string.
+func VerifC04Sort() {
+	max := vParam("maxlen", 3)
+	k := 2 + vChoice("k", vParam("maxlist", 3)-1)
+	in := make([]string, k)
+	for i := range in {
+		in[i] = vString("s", vChoice("len", max+1))
+	}
+	out := append([]string(nil), in...)
+	Sort(out)
+	for i := 0; i+1 < len(out); i++ {
+		c := Compare(out[i], out[i+1])
+		vAssert("sorted", c <= 0)
+		if c == 0 {
+			vAssert("tie-by-string", out[i] <= out[i+1])
+		}
+	}
+	// permutation: some bijection maps out onto in
+	perm := false
+	if k == 2 {
+		perm = vOr(vAnd(out[0] == in[0], out[1] == in[1]), vAnd(out[0] == in[1], out[1] == in[0]))
+	} else {
+		idx := [6][3]int{{0, 1, 2}, {0, 2, 1}, {1, 0, 2}, {1, 2, 0}, {2, 0, 1}, {2, 1, 0}}
+		for _, p := range idx {
+			perm = vOr(perm, vAnd(out[0] == in[p[0]], vAnd(out[1] == in[p[1]], out[2] == in[p[2]])))
+		}
+	}
+	vReach("sorted")
+	vAssert("permutation", perm)
 }
